@@ -284,12 +284,27 @@ def c_do_label_continue(body, ch, uid):
     )
 
 
+def _term_action(ch, var, uid):
+    """the action statement that terminates a non-block DO (R829 allows any
+    action statement but GOTO, RETURN, STOP, EXIT, CYCLE, END ..., arithmetic IF)"""
+    return ch.pick(
+        [
+            "b(%s) = %d" % (var, uid),
+            "if (a > %d) b(%s) = %d" % (uid, var, uid),
+            "call sub%d(%s)" % (uid, var),
+            "print *, %s" % var,
+            "where (w > %d) w = %d" % (uid, uid),
+        ],
+        "term_action",
+    )
+
+
 def c_do_label_action(body, ch, uid):
     lab = str(100 + uid)
     return (
         [opener("do %s i%d = 1, n" % (lab, uid), "do_label")]
         + body
-        + [closer("b(i%d) = %d" % (uid, uid), "action_term", label=lab)]
+        + [closer(_term_action(ch, "i%d" % uid, uid), "action_term", label=lab)]
     )
 
 
@@ -381,7 +396,7 @@ def c_do_shared_action(body, ch, uid):
     return (
         [opener("do %s i%d = 1, n" % (lab, uid), "do_label"), opener("do %s j%d = 1, m" % (lab, uid), "do_label")]
         + body
-        + [closer("b(j%d) = %d" % (uid, uid), "action_term", label=lab, tags=("shared2",))]
+        + [closer(_term_action(ch, "j%d" % uid, uid), "action_term", label=lab, tags=("shared2",))]
     )
 
 
